@@ -633,6 +633,11 @@ static void cr_check(const Json& c, Out& o) {
     case R_Y_SORTED: y = perm_jitter(r, n); std::sort(y.begin(), y.end()); break;
     default: y = perm_jitter(r, n);
     }
+    // correlation is scale-free: overall amplitudes 10^ex, 10^ey (default 0) expose absolute thresholds / guards
+    const int ex = c.geti("ex", 0), ey = c.geti("ey", 0);
+    if (ex != 0) { const double sx = std::pow(10.0, double(ex)); for (auto& v : x) v *= sx; }
+    if (ey != 0) { const double sy = std::pow(10.0, double(ey)); for (auto& v : y) v *= sy; }
+    o.label(ex == 0 && ey == 0 ? "amplitude:unit" : (ex + ey < 0 ? "amplitude:small(10^-60..)" : "amplitude:large(..10^60)"));
     o.label(std::string("x:") + xclass_name(xc));
     o.label(std::string("rel:") + rel_name(rel));
     check_corr(x, y, linear, fmt("x=%s rel=%s", xclass_name(xc), rel_name(rel)), key_of(9, n, xc, rel), o);
@@ -647,7 +652,8 @@ static void cr_gen(Ctx& ctx) {
             }
     ctx.rc("random", ctx.by_tier(60000, 600000), [&]() {
         int n = pick_log(2, 2000);
-        return Json::object().set("n", n).set("xcls", pick(0, X_NX - 1)).set("rel", pick(0, R_NREL - 1)).set("seed", (long long)seed64());
+        const bool scaled = pick(0, 2) != 0;
+        return Json::object().set("n", n).set("xcls", pick(0, X_NX - 1)).set("rel", pick(0, R_NREL - 1)).set("ex", scaled ? pick(-60, 60) : 0).set("ey", scaled ? pick(-60, 60) : 0).set("seed", (long long)seed64());
     });
 }
 
